@@ -78,16 +78,27 @@ def c11():
     return j
 
 
+def c11_all():
+    """K jobs + X: every indicator on SYMBOLIC valid candles (default configuration, 3 steps, every feasible path incl.
+    zero-volume and flat candles): the result carries exactly size() values and signals"""
+    import c09
+    j = c11()
+    for ind in c09.INDICATORS:
+        j.append(X("ind_stream_dispatch", {"kind": ind, "t": 3, "max_paths": 20000}, "%s (default configuration), 3 valid symbolic candles (zero volume, flat candles, ties included): on every feasible path every result has exactly size() values and signals" % ind,
+                   cost=15, timeout=1200, encodes=[IND + "*.rs: %s::{init,next,size}" % ind, "src/core/indicator/result.rs: IndicatorResult::{new,values,signals}"]))
+    return j
+
+
 PROP = {
     "id": "C11",
-    "jobs": c11,
+    "jobs": c11_all,
     "bounds": {
         "quick": "shape/name/default: every indicator, default configuration, 2 steps on concrete candles; IndicatorResult::new on symbolic slices; dyn: blanket impls with a logging indicator (symbolic labels, stream lengths 0-2 and 5), ParabolicSAR results static vs dyn; set: every public field of every indicator configuration (36 configurations, 131 fields, read from the source), fully symbolic prior configuration; per field one accepted and one rejected text, one unknown name per configuration; MA::from_str / Source::from_str on the complete literal lists",
         "thorough": "as quick, plus dyn blanket impls at stream lengths 3 and 4, per indicator init through Box<dyn IndicatorConfigDyn>, and for every field the per-type literal set (" + "; ".join(
             "%s: %s" % (t, " ".join(repr(a) + ("" if ok else "(rejected)") for a, ok in T.LITERALS[t])) for t in ("PeriodType", "ValueType", "bool", "Source", "M")) +
             ") and every field name with one character dropped / appended / first letter capitalised, '', ' ', 'foo'",
     },
-    "outside": ["result shape on symbolic candles / non-default configurations (value-independent by construction of next; not proved per indicator)",
+    "outside": ["result shape on non-default configurations (default configuration: decided on symbolic candles by the X jobs)",
                 "per-indicator static-vs-dyn result equality beyond ParabolicSAR (covered by the generic blanket-impl harnesses; boxing an instance with Windows costs CBMC > 400 s)",
                 "symbolic (arbitrary) value texts: integer/float parsing of symbolic bytes is not affordable under CBMC; texts outside the literal sets",
                 "unknown names outside the generated set"],
